@@ -142,6 +142,14 @@ def run_contracts(rep, prop, crefs, level="quick", with_lemmas=False, also=(), o
         rep.extra.setdefault("functions_under_contract_list", [])
         if res.contract.target not in rep.extra["functions_under_contract_list"]:
             rep.extra["functions_under_contract_list"].append(res.contract.target)
+        rep.extra.setdefault("contracts", []).append({
+            "function": res.contract.target, "contract": f"{cref[0]}.{cref[1]}", "tier": res.contract.tier,
+            "shapes": res.shapes[:6] + (["... %d shapes in all" % len(res.shapes)] if len(res.shapes) > 6 else []),
+            "named_obligations": len(res.by_id), "proved": sum(1 for e in res.by_id.values() if e["status"] == "proved"),
+            "failed": sum(1 for e in res.by_id.values() if e["status"] == "refuted"), "undecided": sum(1 for e in res.by_id.values() if e["status"] == "undecided"),
+            "paths": res.paths, "path_outcomes": res.outcomes, "vc_instances": sum(e["instances"] for e in res.by_id.values()),
+            "solver": "z3-" + __import__("z3").get_version_string(), "solver_seconds": round(res.solver_time, 2), "solver_queries": res.queries,
+            "crosschecked_against_cpython": len(res.xchecks), "budget_exhausted": bool(getattr(res, "budget_exhausted", False))})
         rep.extra.setdefault("solver_queries", 0)
         rep.extra["solver_queries"] += res.queries
     if with_lemmas:
